@@ -88,7 +88,7 @@ structure St where
   /-- fees collector: total energy of the last globally updated week, and the energy it has
       recorded per user -/
   total : Nat
-  rec : Nat → Nat
+  recd : Nat → Nat
   /-- ghost: fee-token balance of the governance contract, users' wallets, total burned -/
   bal : Nat
   wallet : Nat → Nat
@@ -267,8 +267,8 @@ def step (s : St) : Op → Option (St × Out)
   | .setTotal x => some ({ s with total := x }, {})
   | .claim u => do
       req (s.isUser u)
-      let t ← sub? s.total (s.rec u)
-      pure ({ s with total := t + s.energy u, rec := upd s.rec u (s.energy u) }, {})
+      let t ← sub? s.total (s.recd u)
+      pure ({ s with total := t + s.energy u, recd := upd s.recd u (s.energy u) }, {})
   | .advance b => if s.block ≤ b then some ({ s with block := b }, {}) else none
 
 def run (s : St) (ops : List Op) : St :=
@@ -279,7 +279,7 @@ def run (s : St) (ops : List Op) : St :=
 def init (minEnergy minFee quorumPct delay period wpct n funds : Nat) : St :=
   { minEnergy := minEnergy, minFee := minFee, quorumPct := quorumPct, delay := delay,
     period := period, wpct := wpct, props := [], block := 0, n := n,
-    energy := fun _ => 0, total := 0, rec := fun _ => 0,
+    energy := fun _ => 0, total := 0, recd := fun _ => 0,
     bal := 0, wallet := fun u => if 1 ≤ u ∧ u ≤ n then funds else 0, burned := 0 }
 
 /-- the range guards `init` and the `change*` endpoints enforce on the configuration -/
